@@ -19,6 +19,21 @@ The '*-twin' blocks give the keys BY NAME on tables where a column whose name on
 requested name stands BEFORE the exactly named key column (['Region ID', 'region_id'] with
 left_on='region_id', ['A', 'a'] with 'a', 1-3 keys, twin on either / both sides): join and full_join must
 pair and pad on the exactly named column (class suffix ':key-named-like-an-earlier-sanitised-twin').
+The 'advtext-*' blocks: two / three str key columns whose components contain would-be separators ('\x1f',
+NUL, ',', '|', ' ', tab, '/'), '', concatenations of other components and tuple-repr look-alikes; the tables
+hold all key tuples over such a component set (suffix ':adversarial-key-texts').
+The 'large-*' blocks: right tables of 9 / 12 / 17 / 33 rows (distinct keys, neighbouring duplicates, interleaved
+duplicates) against left tables holding the keys of a structured subset of the right rows (low half, high
+half, evens, odds, all but two, first five, only the last, every third, none, all; ascending, or descending
+with every key twice; a foreign key after every second row): several matched and unmatched rows on both
+sides, unmatched right rows at high positions and interleaved - row ORDER is compared with the definition
+(suffix ':larger-tables').
+The 'rejoin' cases: join / full_join called, ONE key cell of the right or left table rewritten in place to a
+different value (live column view t.k[i] / t['k'][i] / t.cols()[p][i], table cell t[i, 'k'] / t[i, p]) -
+including ints with the SAME hash (-1 <-> -2, 0 <-> 2**61-1) -, called again, the old value written back,
+called a third time; and the names of the key column and a second column swapped through live views between two
+calls by name.  Every call must follow the definition on the contents of its moment; reported when the same call
+on freshly built tables does (key 'C10:<join>-repeated:<what was written>:stale-<class>').
 """
 from relational_common import *  # noqa
 
@@ -26,9 +41,11 @@ PID = 'C10'
 
 
 def cases(tier, seed):
-    for case in itertools.chain(join_cases(tier, heavy=True), twin_join_cases(tier, heavy=True)):
+    for case in itertools.chain(join_cases(tier, heavy=True), twin_join_cases(tier, heavy=True),
+                                adv_text_join_cases(tier, heavy=True), large_join_cases(tier, heavy=True)):
         case['op'] = 'outer_joins'
         yield case
+    yield from rejoin_cases(tier, ['join', 'full_join'])
 
 
 def _call(fails, op, descr, fn, want):
@@ -52,28 +69,37 @@ def _submultiset(a, b):
 
 
 def evaluate(case):
+    if case['op'] == 'rejoin':
+        return eval_rejoin(PID, case)
     fails = []
     try:
         s = JoinSetup(case)
     except Exception as e:
-        return [Fail(f'{PID}:setup:raises:{type(e).__name__}', f'{join_descr(case, "setup")}: building the tables raised {e!r}', None, repr(e))]
+        return [Fail(f'{PID}:setup:raises:{type(e).__name__}', f'{big_join_descr(case, "setup")}: building the tables raised {e!r}', None, repr(e))]
     before = s.snapshot()
     nl, nr = s.nl, s.nr
     kw = dict(expect='many_to_many')
 
-    d_in = join_descr(case, 'inner_join')
-    d_left = join_descr(case, 'join')
-    d_full = join_descr(case, 'full_join')
+    d_in = big_join_descr(case, 'inner_join')
+    d_left = big_join_descr(case, 'join')
+    d_full = big_join_descr(case, 'full_join')
     inner = _call(fails, 'inner_join', d_in, lambda: s.L.inner_join(s.R, s.lon, s.ron, **kw), None)
     left = _call(fails, 'join', d_left, lambda: s.L.join(s.R, s.lon, s.ron, **kw), s.want_left())
     full = _call(fails, 'full_join', d_full, lambda: s.L.full_join(s.R, s.lon, s.ron, **kw), s.want_full())
     swapped = _call(fails, 'full_join', d_full + ' [operands swapped]', lambda: s.R.full_join(s.L, s.ron, s.lon, **kw), None)
 
     g_left = g_full = g_inner = g_swapped = None
+    big = len(s.lrows) + len(s.rrows) > 12
     if left is not None:
-        g_left = check_join_output(PID, 'join', left, s.want_left(), s.names(), fails, d_left, tag=hc_tag(case))
+        n0 = len(fails)
+        g_left = check_join_output(PID, 'join', left, s.want_left(), s.names(), fails, d_left, tag=family_tag(case))
+        if big:
+            explain_row_difference(fails, n0, s, g_left, s.want_left())
     if full is not None:
-        g_full = check_join_output(PID, 'full_join', full, s.want_full(), s.names(), fails, d_full, tag=hc_tag(case))
+        n0 = len(fails)
+        g_full = check_join_output(PID, 'full_join', full, s.want_full(), s.names(), fails, d_full, tag=family_tag(case))
+        if big:
+            explain_row_difference(fails, n0, s, g_full, s.want_full())
     try:
         g_inner = rows_of(inner) if inner is not None else None
         g_swapped = rows_of(swapped) if swapped is not None else None
@@ -114,7 +140,12 @@ def evaluate(case):
 
 
 def nontrivial(case):
-    return join_signature(case)
+    if case['op'] == 'rejoin':
+        return rejoin_signature(case)
+    sig = join_signature(case)
+    if sig is not None and case.get('block', '').startswith(('advtext', 'large-')):
+        sig += (case['block'], case.get('layout'), case.get('matched'), case.get('order'))
+    return sig
 
 
 if __name__ == '__main__':
@@ -122,6 +153,6 @@ if __name__ == '__main__':
          rule='every pair (left key rows, right key rows) of each block in `bound`; join and full_join compared with the '
               'nested-loop definition (rows, order, padding, names, truthfulness, inputs unchanged) and the derived relations '
               '(left/right row coverage, inner<=left<=full as multisets, full_join swap symmetry) checked on the real outputs; '
-              'expect=many_to_many throughout; distinct = distinct signatures as for C09',
-         bound=lambda tier: join_bound(tier, heavy=True),
+              'expect=many_to_many throughout; adversarial-text, larger-table and call-write-call-again families as described in `bound`; distinct = distinct signatures as for C09',
+         bound=lambda tier: dict(join_bound(tier, heavy=True), **round4_bound(tier, True, ['join', 'full_join'])),
          nontrivial=nontrivial)
